@@ -437,6 +437,7 @@ unsafe fn dispose_general_node<T: RcObject>(
                     RcInner::decrement_strong(rc, 1, Some(guard));
                     return;
                 }
+                vpoint!(State, rc as *const RcInner<T>);
                 match rc.state.compare_exchange(
                     old.as_raw(),
                     old.with_destructed(true).as_raw(),
